@@ -127,6 +127,36 @@ def run_case(case):
                     res.setdefault("cov", {})["ifelse_bodies"] = 1
                     out.append(res)
         return out
+    if kind == "returnlabel":
+        # the special label `return` at the end of a function body is a label like any other for gotos and clashes: every
+        # combination of jumps to it and of nested labels of that name, once with `return: x` and once with the value missing
+        # (E335, the body is kept): the label diagnostics of the two must be the same
+        pieces = ["\tgoto return;\n", "\t{\n\t\tgoto return;\n\t}\n", "\tif x == 1\n\t\tgoto return;\n",
+                  "\tif x == 1\n\t{\n\t\tgoto return;\n\t}\n\telse\n\t{\n\t\tx = 3;\n\t}\n", "\t{\n\t\treturn:\n\t\tx = 2;\n\t}\n",
+                  "\t{\n\t\t{\n\t\t\tgoto return;\n\t\t}\n\t\tx = 4;\n\t}\n", "\tgoto other;\n", "\tother:\n", "\tx = 5;\n",
+                  "\t{\n\t\tgoto other;\n\t\tother:\n\t}\n"]
+        seqs = [[a] for a in range(len(pieces))] + [[a, b] for a in range(len(pieces)) for b in range(len(pieces))]
+        for sq in seqs:
+            body = "".join(pieces[k] for k in sq)
+            codes = {}
+            for form, tail in (("value", "\treturn: x\n"), ("no_value", "\treturn:\n")):
+                src = "fn f(y: i32) -> i32\n{\n\tvar x: i32 = y;\n" + body + tail + "}\n"
+                k, r = compile_src(src, want_ir=False)
+                if k != "resp":
+                    sig = r.signature() if k == "crash" else common.panic_signature(r)
+                    out.append({"verdict": VIOLATED, "sig": "return label: " + sig, "detail": str(r)[:300], "replay": {"source": src}})
+                    break
+                codes[form] = sorted(e["code"] for e in r.get("errors", []))
+            else:
+                want = sorted(codes["value"] + [335])
+                replay = {"body": body, "codes_with_value": codes["value"], "codes_without_value": codes["no_value"]}
+                if codes["no_value"] != want:
+                    out.append({"verdict": VIOLATED, "sig": "label diagnostics change when the value after `return:` is missing",
+                                "detail": {"expected": want, "observed": codes["no_value"]}, "replay": replay,
+                                "cov": {"return_label_bodies": 1}})
+                else:
+                    out.append({"verdict": HELD, "nt": "returnlabel:%s" % "-".join(map(str, sq)), "cov": {"return_label_bodies": 1}})
+        return out
     if kind == "random":
         _, seed, i = case
         rng = common.rng_for(seed, PROP, "random", i)
@@ -176,6 +206,7 @@ def main(tier, seed, replay=None):
             cases.append(("enum", size, depth, idx, shards))
     nrand = 1500 if tier == "quick" else 60000
     cases += [("ifelse", idx, n) for idx in range(n)]
+    cases.append(("returnlabel",))
     cases += [("random", seed, i) for i in range(nrand)]
     results = common.run_sharded(run_case, cases)
     for r in results:
